@@ -72,6 +72,11 @@ func (t *Topology) Get(kind string) *PeerList {
 func (t *Topology) Each(n int, l *PeerList) *PeerList {
 	var p PeerList
 
+	// routing decisions run concurrently with join/leave events that
+	// update the topology
+	t.Lock()
+	defer t.Unlock()
+
 	for _, list := range t.m {
 		p.Append(list.Exclude(l).Shuffle().Take(n))
 	}
